@@ -289,6 +289,14 @@ func endpointConfig(c Cfg, bufDir string) []config.Node {
 }
 
 func runBehaviour(t *testing.T, b Behaviour, w io.Writer) {
+	bufDir := ""
+	if b.Cfg.Buf != "" && b.Cfg.Buf != "ram" {
+		var err error
+		if bufDir, err = os.MkdirTemp(os.Getenv("VERIF_TMP"), "buf"); err != nil {
+			t.Fatal(err)
+		}
+		defer os.RemoveAll(bufDir)
+	}
 	synctest.Test(t, func(t *testing.T) {
 		tr := vtrace.New(w, b.ID)
 		tr.Emit("Cfg", vtrace.Ev{"lmtp": b.Cfg.Lmtp, "defer": b.Cfg.Defer, "nt": b.Cfg.Nt,
